@@ -78,20 +78,25 @@ Definition dt_sub (a b : dt) : res Z :=
   | Some _, Some _ => Ok (instant a - instant b)
   | _, _ => Exn TypeError
   end.
-(* datetime <= datetime *)
-Definition dt_le (a b : dt) : res bool :=
+(* ordering comparisons: timedelta with timedelta (total), datetime with datetime (both
+   naive or both aware, else TypeError) *)
+Inductive cmpop := CLt | CLe | CGt | CGe.
+Definition z_cmp (o : cmpop) (a b : Z) : bool :=
+  match o with CLt => a <? b | CLe => a <=? b | CGt => a >? b | CGe => a >=? b end.
+Definition dt_cmp (o : cmpop) (a b : dt) : res bool :=
   match tz a, tz b with
-  | None, None => Ok (wall a <=? wall b)
-  | Some _, Some _ => Ok (instant a <=? instant b)
+  | None, None => Ok (z_cmp o (wall a) (wall b))
+  | Some _, Some _ => Ok (z_cmp o (instant a) (instant b))
   | _, _ => Exn TypeError
   end.
+Definition dt_le (a b : dt) : res bool := dt_cmp CLe a b.
 
 (* timedelta(seconds=s) / timedelta(0, s): the conversion of the Python number s to
    microseconds (round-half-even for floats) is done by CPython in the harness; the
    model receives s already in microseconds *)
 Definition td_of_seconds (s_us : Z) : Z := s_us.
 Definition td_of_days_seconds (days s_us : Z) : Z := days * US_PER_DAY + s_us.
-Definition td_gt (a b : Z) : bool := a >? b.
+Definition td_gt (a b : Z) : bool := z_cmp CGt a b.
 
 (* calendar.timegm(now.timetuple()): whole seconds since 1970-01-01 of the wall reading *)
 Definition EPOCH_S : Z := days_of_ymd 1970 1 1 * 86400.
@@ -148,6 +153,7 @@ Record world := mkW {
   lib_parse : str -> res dt;      (* iso8601.parse_date *)
   lib_zone : str -> res zone      (* zoneinfo.ZoneInfo *)
 }.
+Definition ov_is_none (o : override) : bool := match o with NoOv => true | _ => false end.
 Definition set_ov (w : world) (o : override) : world := mkW o (real w) (lib_parse w) (lib_zone w).
 
 (* what callers hand over as "a time": a datetime or a string *)
